@@ -85,10 +85,19 @@ pub fn drive_from_commandline(
 	}
 	else
 	{
+		// The command line was rejected as a whole, but an
+		// explicit `--color=off` on it should still be honoured
+		let use_colors = !args
+			.iter()
+			.zip(args.iter().skip(1).map(Some).chain(std::iter::once(None)))
+			.any(|(arg, next)|
+				arg == "--color=off" ||
+				(arg == "--color" && next.map(|n| n.as_str()) == Some("off")));
+
 		report.print_all(
 			&mut std::io::stderr(),
 			fileserver,
-			true);
+			use_colors);
 
 		Err(())
 	}
